@@ -909,6 +909,14 @@ class Interp:
         """standard-library functions with exact models: itertools.count, the operator module"""
         if name == 're.compile':
             return ARegex('<anonymous>')
+        if name.startswith('math.') and args and all(isinstance(a, (int, float)) and not isinstance(a, bool) for a in args):
+            import math
+            fn = getattr(math, name[5:], None)
+            if callable(fn):
+                try:
+                    return fn(*args)
+                except (ValueError, OverflowError, TypeError, ZeroDivisionError) as exc:
+                    raise RaiseSig(type(exc).__name__, (str(exc),), e)
         if name == 'functools.partial' and args:
             kw = getattr(self, '_kwargs', {}) or {}
             if kw:
